@@ -170,6 +170,20 @@ pub fn run(ctx: &mut Ctx) {
                 tr = Tr::WeightsPow2;
             }
         }
+        if tr == Tr::WeightsAny {
+            // c x w is correctly rounded (relative error 2^-53) only for normal numbers; subnormal
+            // weights keep few bits, and c x w is then a slightly different game
+            fn min_weight(n: &HNode) -> f64 {
+                match n {
+                    HNode::Term(_) => f64::INFINITY,
+                    HNode::Chance { outs, .. } => outs.iter().map(|(w, k)| w.min(min_weight(k))).fold(f64::INFINITY, f64::min),
+                    HNode::Player { acts, .. } => acts.iter().map(|(_, k)| min_weight(k)).fold(f64::INFINITY, f64::min),
+                }
+            }
+            if min_weight(&tree) < 1e-290 {
+                tr = Tr::WeightsPow2;
+            }
+        }
         let ap = apply(rng, &tree, tr, orig.flat.max_abs_payoff());
         let trn = format!("{:?}", tr);
         let new = match Prepared::new(&ap.tree) {
@@ -318,6 +332,47 @@ pub fn run(ctx: &mut Ctx) {
                 ctx.inconclusive("swap-with-exact-regret-tie");
                 return;
             }
+            if !ap.exact {
+                // Stability probe. "Equal within rounding" presupposes that the computation is
+                // stable under rounding-sized perturbations. Regret dynamics are not always: on a
+                // game with a symmetric, unstable trajectory an asymmetry of 1e-16 grows by an
+                // order of magnitude per iteration (observed: 1e-16 -> 1e-12 in six iterations of
+                // DCFR, O(1) after thirty). So the original game is solved again with every payoff
+                // perturbed by an independent relative 1e-14..1e-13: if that moves the output by at
+                // least a thousandth of the difference under judgment, rounding alone explains the
+                // difference and the case is inconclusive.
+                let mut worst_probe = 0.0f64;
+                for salt in 0..2u64 {
+                    let mut prng = Rng::new(mix(idx ^ 0x9e37 ^ salt));
+                    fn perturb(n: &HNode, r: &mut Rng) -> HNode {
+                        match n {
+                            HNode::Term(p) => HNode::Term(p * (1.0 + (if r.chance(0.5) { 1.0 } else { -1.0 }) * (1e-14 + 9e-14 * r.unit()))),
+                            HNode::Chance { info, outs } => HNode::Chance { info: info.clone(), outs: outs.iter().map(|(w, k)| (*w, perturb(k, r))).collect() },
+                            HNode::Player { p, info, acts } => HNode::Player { p: *p, info: info.clone(), acts: acts.iter().map(|(a, k)| (a.clone(), perturb(k, r))).collect() },
+                        }
+                    }
+                    let ptree = perturb(&tree, &mut prng);
+                    if let Ok(pprep) = Prepared::new(&ptree) {
+                        if let Outcome::Ok(pa) = solve::run(&pprep, &cfg, None) {
+                            for p in 0..2 {
+                                for (x, y) in pa.profile[p].iter().zip(a.profile[p].iter()) {
+                                    for (u, v) in x.iter().zip(y.iter()) {
+                                        worst_probe = worst_probe.max((u - v).abs());
+                                    }
+                                }
+                                let bd = (pa.bounds[p] - a.bounds[p]).abs() / scale.max(1e-300);
+                                worst_probe = worst_probe.max(bd);
+                            }
+                        }
+                    }
+                }
+                let judged = worst.max(bound_diff / nscale.max(1e-300));
+                if worst_probe >= judged / 1000.0 {
+                    ctx.count(&format!("unstable-dynamics(1e-13-payoff-perturbation-moves-the-output-comparably):{}", trn), 1);
+                    ctx.inconclusive("outputs-differ-but-the-solve-is-unstable-under-1e-13-relative-payoff-perturbations");
+                    return;
+                }
+            }
             ctx.violation(
                 idx,
                 &format!("C12:solver-output-changed:{}", trn),
@@ -330,7 +385,7 @@ pub fn run(ctx: &mut Ctx) {
         ctx.sample(3, || json!({"game": tree.brief(100), "transformation": trn, "transformed": ap.tree.brief(100), "cfg": cfg.describe(), "max_strategy_difference": worst}));
     });
     ctx.finish(crate::report::extra(
-        "cases = (game, transformation, profile or solve): G1/G2 games (<=400 nodes) x transformations {chance weights x 2^-1030..2^-1060 per node (deep-subnormal units; on trees with dyadic weights, where this is exact), chance weights x 2^j per node, chance weights x arbitrary c per node, insertion of single-outcome chance and single-action decision nodes at 30% of the edges (removal is the inverse), consistent renaming of infosets/actions/chance infosets, payoffs x 2^j, payoffs x arbitrary c, payoffs + constant (constant in {3,-1.5,0.1,100} x max|payoff|), player swap with negated payoffs}. Evaluation level: get_info of two profiles carried through the name bijection must give utility mul*u+add (negated for the swap) and regrets mul*r (swapped for the swap): bitwise where the arithmetic is identical, else within 1e-9. Solver level: solve(Full, T in {1,2,3,5,10,30}, one thread) on both games; strategies through the bijection and bounds x mul must be bit-identical for the exact transformations and within 1e-9 otherwise, where a difference is inconclusive only if a trace (hook H3) passed within 1e-9 of a regret-matching discontinuity. Payoff-scaling transformations use parameter sets with softmax weight in {0,+-inf} (a finite weight is a temperature and not scale-free by documentation). distinct = hash(tree, profile or configuration, transformation); non-trivial = game has a decision infoset.",
+        "cases = (game, transformation, profile or solve): G1/G2 games (<=400 nodes) x transformations {chance weights x 2^-1030..2^-1060 per node (deep-subnormal units; on trees with dyadic weights, where this is exact), chance weights x 2^j per node, chance weights x arbitrary c per node, insertion of single-outcome chance and single-action decision nodes at 30% of the edges (removal is the inverse), consistent renaming of infosets/actions/chance infosets, payoffs x 2^j, payoffs x arbitrary c, payoffs + constant (constant in {3,-1.5,0.1,100} x max|payoff|), player swap with negated payoffs}. Evaluation level: get_info of two profiles carried through the name bijection must give utility mul*u+add (negated for the swap) and regrets mul*r (swapped for the swap): bitwise where the arithmetic is identical, else within 1e-9. Solver level: solve(Full, T in {1,2,3,5,10,30}, one thread) on both games; strategies through the bijection and bounds x mul must be bit-identical for the exact transformations and within 1e-9 otherwise, where a difference is inconclusive only if a trace (hook H3) passed within 1e-9 of a regret-matching discontinuity or a stability probe (the original game with every payoff perturbed by an independent relative 1e-14..1e-13) moves the output by at least a thousandth of the difference under judgment. Payoff-scaling transformations use parameter sets with softmax weight in {0,+-inf} (a finite weight is a temperature and not scale-free by documentation). distinct = hash(tree, profile or configuration, transformation); non-trivial = game has a decision infoset.",
         &["name bijection is applied by the harness; infoset alignment by name"],
     ));
 }
